@@ -26,6 +26,7 @@ import (
 	"strings"
 	"sync/atomic"
 	"testing"
+	"time"
 
 	"github.com/DATA-DOG/go-sqlmock"
 	kit "github.com/gotid/god/internal/verifkit"
@@ -139,13 +140,14 @@ type c11Stmt struct {
 	kind string
 	ok   bool
 	sql  string
+	why  string // "driver": scripted driver fault; "ctx": the dead context stops it before the driver
 }
 
 func infra(c kit.Case, msg string) kit.Verdict {
 	return kit.Verdict{Case: c.Index, Infra: true, Msg: msg}
 }
 
-func runTxCase(c kit.Case) (v kit.Verdict) {
+func runTxCase(c kit.Case, rep *kit.Reporter) (v kit.Verdict) {
 	v = kit.Verdict{Case: c.Index, OK: true}
 	env, err := newC11Env()
 	if err != nil {
@@ -162,6 +164,24 @@ func runTxCase(c kit.Case) (v kit.Verdict) {
 		}
 		api := kit.Str(st["api"])
 		ncall++
+		// the caller's context for this call
+		ctxMode := kit.Str(st["ctx"])
+		callCtx, cancel := context.Background(), context.CancelFunc(func() {})
+		switch ctxMode {
+		case "live", "":
+			ctxMode = "live"
+		case "cancelled":
+			callCtx, cancel = context.WithCancel(callCtx)
+			cancel()
+		case "expired":
+			callCtx, cancel = context.WithDeadline(callCtx, time.Now().Add(-time.Hour))
+		case "bodycancel":
+			callCtx, cancel = context.WithCancel(callCtx)
+		default:
+			return infra(c, "unknown ctx scenario "+ctxMode)
+		}
+		defer cancel()
+		cancelInBody := false
 		// read the environment's script up to the return step
 		var stmts []c11Stmt
 		how, beginOK := "none", true
@@ -180,7 +200,14 @@ func runTxCase(c kit.Case) (v kit.Verdict) {
 				k := kit.Str(s["kind"])
 				q := fmt.Sprintf("c11 %s call %d stmt %d where id = ?", k, ncall, len(stmts)+1)
 				ok := kit.Bool(s["ok"])
-				stmts = append(stmts, c11Stmt{kind: k, ok: ok, sql: q})
+				why := kit.Str(s["why"])
+				stmts = append(stmts, c11Stmt{kind: k, ok: ok, sql: q, why: why})
+				if why == "ctx" {
+					if ok {
+						return infra(c, "a statement under a dead context cannot be scripted to succeed")
+					}
+					continue // never reaches the driver: nothing to script
+				}
 				switch k {
 				case "exec":
 					ee := env.mock.ExpectExec(q)
@@ -201,6 +228,7 @@ func runTxCase(c kit.Case) (v kit.Verdict) {
 				}
 			case "bodyend":
 				how = kit.Str(s["how"])
+				cancelInBody = kit.Bool(s["cancel"])
 			case "commit":
 				ec := env.mock.ExpectCommit()
 				if !kit.Bool(s["ok"]) {
@@ -225,28 +253,40 @@ func runTxCase(c kit.Case) (v kit.Verdict) {
 		var returned error
 		bodyRuns := 0
 		var stmtTrouble string
-		body := func(s sqlx.Session) error {
+		// bctx is the context the manager hands to the body (nil for the context-free entry points:
+		// the body then uses the context-free statement methods)
+		body := func(bctx context.Context, s sqlx.Session) error {
 			bodyRuns++
 			var last error
 			for n, stm := range stmts {
 				var e error
-				switch stm.kind {
-				case "exec":
+				var got int64
+				switch {
+				case stm.kind == "exec" && bctx == nil:
 					_, e = s.Exec(stm.sql, n)
-				case "query":
-					var got int64
+				case stm.kind == "exec":
+					_, e = s.ExecCtx(bctx, stm.sql, n)
+				case stm.kind == "query" && bctx == nil:
 					e = s.QueryRow(&got, stm.sql, n)
-					if e == nil && got != 7 {
-						stmtTrouble = fmt.Sprintf("statement %d read %d, the database delivered 7", n+1, got)
-					}
+				case stm.kind == "query":
+					e = s.QueryRowCtx(bctx, &got, stm.sql, n)
+				}
+				if stm.kind == "query" && e == nil && got != 7 {
+					stmtTrouble = fmt.Sprintf("statement %d read %d, the database delivered 7", n+1, got)
 				}
 				if stm.ok && e != nil {
 					stmtTrouble = fmt.Sprintf("statement %d failed inside the transaction: %v", n+1, e)
 				}
-				if !stm.ok && !errors.Is(e, errC11Stmt) {
+				if !stm.ok && stm.why != "ctx" && !errors.Is(e, errC11Stmt) {
 					stmtTrouble = fmt.Sprintf("statement %d: the driver's fault did not reach the body, got %v", n+1, e)
 				}
+				if !stm.ok && stm.why == "ctx" && e == nil {
+					stmtTrouble = fmt.Sprintf("statement %d succeeded under a dead context", n+1)
+				}
 				last = e
+			}
+			if cancelInBody {
+				cancel()
 			}
 			switch how {
 			case "nil":
@@ -269,13 +309,13 @@ func runTxCase(c kit.Case) (v kit.Verdict) {
 			defer func() { panicked = recover() }()
 			switch api {
 			case "Transact":
-				got = env.conn.Transact(body)
+				got = env.conn.Transact(func(s sqlx.Session) error { return body(nil, s) })
 			case "TransactCtx":
-				got = env.conn.TransactCtx(context.Background(), func(_ context.Context, s sqlx.Session) error { return body(s) })
+				got = env.conn.TransactCtx(callCtx, body)
 			case "CachedTransact":
-				got = cached.Transact(body)
+				got = cached.Transact(func(s sqlx.Session) error { return body(nil, s) })
 			case "CachedTransactCtx":
-				got = cached.TransactCtx(context.Background(), func(_ context.Context, s sqlx.Session) error { return body(s) })
+				got = cached.TransactCtx(callCtx, body)
 			default:
 				panic("unknown api " + api)
 			}
@@ -285,13 +325,28 @@ func runTxCase(c kit.Case) (v kit.Verdict) {
 		}
 		after := *snapshot(env.cnt)
 		commits, rollbacks := after.commits-before.commits, after.rollbacks-before.rollbacks
+		begins := after.begins - before.begins
 		v.Steps++
+		if (api == "Transact" || api == "CachedTransact") && ctxMode != "live" {
+			return infra(c, "context scenario for an entry point without context")
+		}
+		// handed a dead context the manager may decline before beginning anything
+		// (no Begin at all), or begin, skip the body (which then has not returned nil) and roll back
+		if kit.Bool(ret["mayrefuse"]) && bodyRuns == 0 && commits == 0 && panicked == nil && got != nil &&
+			((begins == 0 && rollbacks == 0) || (beginOK && begins == 1 && rollbacks == 1)) {
+			rep.Count("tx.refused-dead-context", 1)
+			return v // the rest of the script assumed a begun transaction
+		}
+		rep.Count("tx.ctx-"+ctxMode, 1)
 
 		// compare with the return step
 		want := kit.Str(ret["result"])
 		scen := how
 		if !beginOK {
 			scen = "beginfail"
+		}
+		if ctxMode != "live" {
+			scen += ":ctx-" + ctxMode
 		}
 		var bad []string
 		aspect := ""
@@ -333,6 +388,9 @@ func runTxCase(c kit.Case) (v kit.Verdict) {
 		if int(rollbacks) != kit.Num(ret["rollbacks"]) {
 			note("rollbacks", fmt.Sprintf("%d Rollback reached the database, specification %d", rollbacks, kit.Num(ret["rollbacks"])))
 		}
+		if begins > 0 && beginOK && commits+rollbacks == 0 && len(bad) == 0 {
+			note("dangling", "a transaction was begun and neither committed nor rolled back")
+		}
 		if beginOK && bodyRuns != 1 {
 			note("body-runs", fmt.Sprintf("body ran %d times", bodyRuns))
 		}
@@ -342,8 +400,8 @@ func runTxCase(c kit.Case) (v kit.Verdict) {
 		if len(bad) > 0 {
 			v.OK, v.Step = false, i-1
 			v.Key = "C11:tx:" + scen + ":" + aspect
-			v.Msg = fmt.Sprintf("%s call #%d (begin ok=%v, %d statements, body ends with %s): %s", api, ncall, beginOK,
-				len(stmts), how, strings.Join(bad, "; "))
+			v.Msg = fmt.Sprintf("%s call #%d (context %s, begin ok=%v, %d statements, body ends with %s): %s", api, ncall, ctxMode,
+				beginOK, len(stmts), how, strings.Join(bad, "; "))
 			return v
 		}
 	}
@@ -800,7 +858,7 @@ func TestVerifC11(t *testing.T) {
 		}
 		switch kit.Str(c.Steps[0]["op"]) {
 		case "call":
-			rep.Put(runTxCase(c))
+			rep.Put(runTxCase(c, rep))
 		case "query":
 			rep.Put(runRowMapCase(c, rep))
 		default:
